@@ -34,7 +34,7 @@ Requirements for each change:
   3. With the change applied, urwid must still import, and the existing test suite must still pass exactly as before. Run it in the worktree with:
        cd {wt} && /venv/bin/python -m pytest -q -p no:cacheprovider --timeout=900 --continue-on-collection-errors 2>&1 | tail -15
      On the pristine tree this gives 106 passed and 4 known failures/errors (urwid.display._win32, _win32_raw_display, glib_loop collection errors and Screen._attrspec_to_escape). A change is acceptable only if the same 106 still pass (the same 4 may keep failing). Check this for each change.
-  4. Verify yourself: demo.py passes on pristine (`git stash` / `git checkout -- urwid` to get back) and fails with the patch. After producing each patch.diff, restore the worktree to pristine (`git -C {wt} checkout -- urwid`) before starting the next one, and leave it pristine at the end.
+  4. Verify yourself: demo.py passes on pristine (use `git diff > file; git checkout -- urwid; ...; git apply file` to switch - never `git stash`, the stash is shared between worktrees) and fails with the patch. After producing each patch.diff, restore the worktree to pristine (`git -C {wt} checkout -- urwid`) before starting the next one, and leave it pristine at the end.
 
 {EXTRA}
 Environment notes: no network. Use /venv/bin/python (Python 3.12; urwid's dependencies are installed there). When running python from the worktree root, `import urwid` picks up the worktree copy (check `urwid.__file__`). In demo.py insert the worktree root at sys.path[0] explicitly: `sys.path.insert(0, os.path.dirname(os.path.dirname(os.path.dirname(os.path.abspath(__file__)))))` before importing urwid, so it works from any cwd. Keep scratch files inside {wt}/_out only.
